@@ -217,6 +217,45 @@ theorem C07_machine_removed_source_clears (fuel : Nat) {C W : List Nat} {s : Sta
       (Inv C W none (unregisterAll fuel s src) ∧ Tbl.hasOwner (unregisterAll fuel s src).notify src = false) :=
   (iAll fuel).ua C W s src h
 
+/-- **`notify` wakes exactly the registered threads, once each, in order — machine level.**
+    `o notify n` on an object `o` (no `endon` list for `(o, n)`) in any state satisfying the machine
+    invariant, with at least two units of fuel, *is* the following: first both tables are updated to
+    `notifyT` of the table layer — so at that moment nothing is registered under `(o, n)` any more and, by
+    `C07_notify_wakes_registered_once` / `C07_notify_clears`, the selected list is exactly the threads
+    registered at issue time, each once, in registration order — and only then `StoppedWaitFor(n, false)` is
+    called on the selected threads in that order, skipping those a previously woken thread destroyed.
+    (What each call does — nested execution of the woken thread — keeps the invariant:
+    `C07_machine_notify_keeps_invariant_partial`.) -/
+theorem C07_machine_notify_wakes_registered_once (fuel : Nat) {W : List Nat} {top : Option Nat} {s : State}
+    (h : Inv [] W top s) (o n : Nat) (ho : o < 100) (he : Tbl.find s.endOn (o, n) = none)
+    (list : List Nat) (hreg : Tbl.find s.notify (o, n) = some list) :
+    unregister (fuel + 2) s o n =
+      (notifyT ⟨s.notify, s.waitFor⟩ o n).2.foldl
+        (fun s l => if s.alive l then stoppedWaitFor (fuel + 1) s l n false else s)
+        { s with waitFor := (notifyT ⟨s.notify, s.waitFor⟩ o n).1.w,
+                 notify := (notifyT ⟨s.notify, s.waitFor⟩ o n).1.n } := by
+  have hE : unregEndOn (deleteThread (fuel + 1)) s o n = (s, false) := by
+    unfold unregEndOn
+    split
+    · rfl
+    · rw [he]
+  have hown : Tbl.hasOwner s.notify o = true :=
+    (h.n.wfN.hasOwner_iff o).2 ⟨n, by rw [Tbl.find_eq_getD_of_some hreg]; exact h.n.wfN.find_ne_nil hreg⟩
+  have halive : ∀ l ∈ list, s.alive l = true := by
+    intro l hl
+    have hx : l ∈ Tbl.getD s.notify (o, n) := by rw [Tbl.find_eq_getD_of_some hreg]; exact hl
+    rw [State.alive_thread _ (by simpa [State.isThread] using h.n.nMem _ _ hx)]
+    exact (h.tab.aN o n l hx).2
+  have hnt : State.isThread o = false := by simp [State.isThread]; omega
+  rw [unregister_succ, hE]
+  simp only [Bool.false_eq_true, if_false]
+  unfold unregNotify
+  simp only [hown, Bool.not_true, Bool.false_eq_true, if_false, hreg]
+  rw [unregisterTargets_eq s o n list halive]
+  simp only [stoppedNotify_succ, hnt, Bool.false_eq_true, if_false, ite_self]
+  unfold wakeLoop notifyT
+  simp only [Tbl.find_eq_getD_of_some hreg]
+
 /-- **`notify` through the nested executions, machine level** — what is proved: `Unregister(name)` on `src`
     (script `notify`) run in a state satisfying the machine invariant with no cancel in progress ends
     (unless out of fuel) in a state that satisfies it again (mirror, liveness, waiting ⇔ registered), every
@@ -248,6 +287,12 @@ example : (runOps {} demoWaiters).outOfFuel = false ∧
     (runOps {} demoWaiters).notify = [((50, 7), [101, 102])] ∧
     (runOps {} demoWaiters).waitFor = [((101, 7), [50]), ((102, 7), [50])] ∧
     ((runOps {} demoWaiters).th? 101).map (·.ts) = some .waiting := by decide +kernel
+
+/-- the hypotheses of `C07_machine_notify_wakes_registered_once` are met by a reachable state with two
+    registered waiters -/
+example : ∃ s, Inv [] [] none s ∧ Tbl.find s.notify (50, 7) = some [101, 102] ∧ Tbl.find s.endOn (50, 7) = none :=
+  ⟨runOps {} demoWaiters, ((reachable_hinv demoWaiters_reachable).get (by decide +kernel)).inv,
+    by decide +kernel, by decide +kernel⟩
 
 /-- the frame at clock 5 resumes 100, whose `notify` wakes both waiters nested, in registration order -/
 example : (runOps {} (demoWaiters ++ [.step 5])).out = ["m9", "m2", "m2"] ∧
